@@ -48,7 +48,7 @@ THEOREMS = {
     'C10_context_wf': 'located/shown (all inputs): every syntax error the reader model reports or raises has command_start < pos <= len(text): before_error of LowLevelParser.get_error_context is never empty (no IndexError from splitlines()[-1]) and the error_context_info satisfies CtxInfo.WF, the hypothesis of the C16 rendering theorems',
     'C10_context_renderable': 'total/shown (composition with C16_render_total, all inputs, any file name and prefix): every problem the reader model reports and the error it raises is an exception object of one of the eight bib reader classes built with the (command_start, lineno, pos) the reader really has; it satisfies Err.WF, so the model of errors.format_error is defined on it and yields context lines + prefix + str(error) - printing a warning in non-strict mode cannot raise in the model',
     'C10_context_renderable_nonvacuous': "kernel-evaluated: '=' missing in line 2 of an entry starting in line 1 gives command_start 0, pos 20 and the four printed lines (command from its @, offending line, marker under column 8, located WARNING); a second command has its own command_start (20) after a data error; strict mode raises the undefined macro y of 'x @a{k, t = y z}' with command_start 2, pos 13",
-    'C10_model_constants_match_source': '[table comparison] the literals of the reader model equal the constants regenerated from /repo on every run (harness/tablegen/c10.py -> Gen/BibReaderConsts.lean): max_level = 100 and level = 0 of parse_string, descriptions of the 4 patterns and 9 literals, their regular expressions and those of WHITESPACE / NEWLINE, the PrematureEOF and "... expected" messages, the error_type strings, BaseParser.filename',
+    'C10_model_constants_match_source': "[table comparison] change detector: the constants regenerated from /repo on every run equal (a) the model's Pat.*.desc, PrematureEOF / '... expected' messages and error_type strings, and (b) LITERALS restated in the theorem - max_level 100 / level 0 (model: d + 1 > 100 in strLoop), the regular expressions the hand-written matchers stand for, '<INPUT>' - whose agreement with the hand-written matchers is carried by the correspondence check",
     'C10_confined_neg': 'confined_after fails with an "@" inside the malformed entry: witness evaluated in the kernel (bogus entry shadows a later real one) - known finding C10-at-inside-malformed-entry',
 }
 RULE = ('every string up to the tier length over the token alphabet {@ a b 0 1 { } ( ) " , = # ~ space LF CR}; person fields holding every string of <= 3 name '
